@@ -386,7 +386,7 @@ public:
 				if(q!=p)
 					q->next = n;
 				else
-					a[bin] = 0;
+					a[bin] = n;
 				--_n();
 				return;
 			}
